@@ -320,7 +320,7 @@ func (r *Rec) Merge(o *Rec) {
 				continue
 			}
 			d.Count += v.Count
-			if v.Order < d.Order || (v.Order == d.Order && len(v.Case) < len(d.Case)) {
+			if len(v.Case) < len(d.Case) || (len(v.Case) == len(d.Case) && v.Order < d.Order) {
 				d.Order, d.Case, d.Msg, d.Kind = v.Order, v.Case, v.Msg, v.Kind
 			}
 		}
@@ -368,6 +368,8 @@ type Prop struct {
 	Rule        string // how cases are enumerated and what "non-trivial" means
 	Technique   string
 	Assumptions []string
+	// HangSeconds overrides the worker watchdog threshold (0 = default 300).
+	HangSeconds int
 	// Serial properties run in one worker (NShards = 1).
 	Serial bool
 	// Post, if set, runs in the driver after the merge (e.g. the C20 race pass).
